@@ -137,10 +137,23 @@ MEMBERS = [None, "Ping", "GetMachineId", "ping", "Pings", "GetMachineID", "Intro
 FLAGS = [0, 1, 2, 4, 255]            # 1 = NO_REPLY_EXPECTED: the property still asks for exactly one reply
 DESTS = [None, "org.me", ":1.1"]
 BODIES = [None, "x", "hello"]
+# Round 4: fields of the incoming message that handle_peer_message must NOT look at.  The object path
+# (None = a message without a PATH field, built by hand), the num_fds header field, the shape of the body.
+OBJECTS = [None, "/", "/x", "/org/freedesktop/DBus", "/org/freedesktop/DBus/Local", "/org/freedesktop/DBus/Peer",
+           "/org/freedesktop", "/org/freedesktop/dbus", "/org/freedesktop/DBus/Peer/Ping",
+           "/a/b/c/d/e/f/g/h/i/j/k/l/m/n/o/p", "/" + "/".join(["long_path_element_%02d" % i for i in range(40)])]
+NUMFDS = [None, 0, 1]
+BODYKINDS = ["-", "u", "2"]          # "-": the body string alone (None: empty body); "u": one u32; "2": a string and a u32
+BODYFORMS = [(None, "-"), ("x", "-"), (None, "u"), ("hello", "2")]
+
+
+def rand_extra(r):
+    return (r.choice(OBJECTS), r.choice(NUMFDS), r.choice(BODYKINDS))
 
 
 def gen_peer_lines(r, thorough, with_get_id):
-    """(iface, member, typ, serial, sender, reply-serial field, flags, destination, body string)"""
+    """(iface, member, typ, serial, sender, reply-serial field, flags, destination, body string,
+        object path, num_fds, body kind)"""
     cases = []
     for iface in IFACES:
         for member in MEMBERS:
@@ -151,22 +164,44 @@ def gen_peer_lines(r, thorough, with_get_id):
                 reps = 3 if thorough else 1
                 for _ in range(reps):
                     cases.append((iface, member, typ, r.choice([1, 77, 4294967295, 12345]), r.choice([None, ":1.9", "org.x.y"]),
-                                  r.choice([None, None, 999]), r.choice(FLAGS), r.choice(DESTS), r.choice(BODIES)))
+                                  r.choice([None, None, 999]), r.choice(FLAGS), r.choice(DESTS), r.choice(BODIES)) + rand_extra(r))
                 if exact:
                     # the calls the property is about: every flag value (incl. NO_REPLY_EXPECTED), with and without
                     # body / destination / sender / a REPLY_SERIAL field of their own
                     for flags in FLAGS:
                         for sender in (None, ":1.9", "org.x.y"):
                             cases.append((iface, member, typ, r.choice([1, 77, 4294967295]), sender, r.choice([None, 999]),
-                                          flags, r.choice(DESTS), r.choice(BODIES)))
+                                          flags, r.choice(DESTS), r.choice(BODIES)) + rand_extra(r))
+                    # ... and every object path (incl. none at all, the bus's own paths, deep and long ones) with
+                    # every num_fds field and body shape for the calls; every object path for the other types
+                    for obj in OBJECTS:
+                        combos = [(f, b) for f in NUMFDS for b in BODYFORMS] if typ == "c" else [(r.choice(NUMFDS), r.choice(BODYFORMS))]
+                        for fds, (body, bk) in combos:
+                            cases.append((iface, member, typ, r.choice([1, 77, 4294967295]), r.choice([None, ":1.9", "org.x.y"]),
+                                          r.choice([None, 999]), r.choice(FLAGS), r.choice(DESTS), body, obj, fds, bk))
+                elif (iface == PEER or member in ("Ping", "GetMachineId")) and typ == "c":
+                    # near misses: one more call per object path (must stay unanswered whatever the path)
+                    for obj in OBJECTS:
+                        fds, (body, bk) = r.choice(NUMFDS), r.choice(BODYFORMS)
+                        cases.append((iface, member, typ, r.choice([1, 77, 4294967295]), r.choice([None, ":1.9", "org.x.y"]),
+                                      r.choice([None, 999]), r.choice(FLAGS), r.choice(DESTS), body, obj, fds, bk))
     return cases
 
 
-def peer_line(c):
-    iface, member, typ, serial, sender, rs, flags, dest, body = c
+def full_case(c):
+    """cases recorded before round 4 have 9 components: object path /x, no num_fds field, plain body"""
+    c = tuple(c)
+    return c if len(c) == 12 else c[:9] + ("/x", None, "-")
+
+
+def peer_line(c, model=False):
+    """the harness line; model=True: the model driver's line (it has no body-kind argument: the model's message
+    carries the object path and num_fds as fields it never reads, and its verdict must hold for every body)"""
+    iface, member, typ, serial, sender, rs, flags, dest, body, obj, fds, bk = full_case(c)
     o = lambda x: hx(x) if x is not None else "-"
-    return "p %s %s %s %d %s %s %d %s %s" % (o(iface), o(member), typ, serial, o(sender), rs if rs is not None else "-",
-                                           flags, o(dest), o(body))
+    line = "p %s %s %s %d %s %s %d %s %s %s %s" % (o(iface), o(member), typ, serial, o(sender), rs if rs is not None else "-",
+                                                 flags, o(dest), o(body), o(obj), fds if fds is not None else "-")
+    return line if model else line + " " + bk
 
 
 def is_machine_id(b):
@@ -189,7 +224,7 @@ def reply_ok(rep, serial, sender):
 
 def judge_peer(case, o):
     """the property on one observed call of handle_peer_message / filter_peer"""
-    iface, member, typ, serial, sender, rs, flags, dest, body_in = case
+    iface, member, typ, serial, sender, rs, flags, dest, body_in = tuple(case)[:9]
     peer_header = iface == PEER and member in ("Ping", "GetMachineId")
     is_peer = typ == "c" and peer_header                    # a method CALL to Ping / GetMachineId on the Peer interface
     if o["filter"] != ("true" if peer_header else "false"):
@@ -558,7 +593,13 @@ def run(ctx):
                 "another draw in the fixture); afterwards a LATER process (new namespace, other draw) on the same /tmp directory must "
                 "return the id the earlier process stored. Peer dispatch: all combinations of 7 interfaces x 9 members (absent, exact, "
                 "near misses incl. suffix/prefix ones) x 5 message types (call, signal, method return, error, invalid), with sender, serial, "
-                "flags (0,1=NO_REPLY_EXPECTED,2,4,255), destination, body and a REPLY_SERIAL field varied. The CLOCK is chosen too (LD_PRELOAD "
+                "flags (0,1=NO_REPLY_EXPECTED,2,4,255), destination, body and a REPLY_SERIAL field varied. Fields the handler must not look at are inputs too: "
+                "the OBJECT PATH (no PATH field at all, /, /x, /org/freedesktop/DBus, .../DBus/Local, .../DBus/Peer, other near misses of the bus's path, a deep "
+                "and a long path), the NUM_FDS header field (absent, 0, 1) and the body shape (empty, one string, one u32, a string and a u32): every "
+                "Ping/GetMachineId call on the Peer interface runs with the full product of the three, every other type of those messages and every "
+                "near-miss call (Peer interface or Ping/GetMachineId member, not both) with every object path, all remaining cases with a random "
+                "choice. The model's message record carries object path and num_fds as fields it never reads and gets them too; the body shape goes "
+                "to the implementation only and the verdict must be the one the model gives without it. The CLOCK is chosen too (LD_PRELOAD "
                 "clock_gettime shim compiled at check time, harness process only): draws at 0, 42, 2^31, 2^32-1, 2^32, 2^32+5 seconds must give "
                 "exactly the model's id. DISK FULL: /tmp is a 4k/8k tmpfs filled to the last byte, first call (may fail, must not store or "
                 "return a malformed id), space freed, two more calls (one proper id). RACE: 8 processes released together on an empty /tmp "
@@ -633,7 +674,7 @@ def model_peer_line(case, o):
             secs = int(unhx(post)[-8:], 16)
         except ValueError:
             secs = 0
-    return "%s %s %s %d" % (peer_line(case), pre, draw, secs)
+    return "%s %s %s %d" % (peer_line(case, model=True), pre, draw, secs)
 
 
 def compare_peer(ctx, drv, cases, outs):
@@ -644,21 +685,24 @@ def compare_peer(ctx, drv, cases, outs):
         return
     for c, li, lm in zip(cases, outs, mouts):
         oi, om = fields(li), fields(lm)
-        iface, member, typ, serial, sender, rs, flags, dest, body_in = c
+        iface, member, typ, serial, sender, rs, flags, dest, body_in, obj, fds, bk = full_case(c)
         nt = iface == PEER or member in ("Ping", "GetMachineId")
         ctx.case(("p",) + c, nontrivial=nt,
-                 sample={"interface": iface, "member": member, "type": typ, "serial": serial, "sender": sender, "reply_serial_field": rs, "flags": flags, "destination": dest, "body": body_in, "impl": li[:200]}
+                 sample={"interface": iface, "member": member, "type": typ, "serial": serial, "sender": sender, "reply_serial_field": rs, "flags": flags, "destination": dest, "body": body_in, "object_path": obj, "num_fds": fds, "body_kind": bk, "impl": li[:200]}
                  if nt and iface == PEER and member in ("Ping", "GetMachineId") and len(ctx.samples) < 3 else None)
         ctx.count("peer:handled=" + oi.get("handled", "?"))
         if iface == PEER and member in ("Ping", "GetMachineId") and typ == "c":
             ctx.count("peer:call_flags=%d" % flags)
+            ctx.count("peer:call_object_path=%s" % (obj if obj is None or len(obj) < 40 else obj[:24] + "...(%d chars)" % len(obj)))
+            ctx.count("peer:call_num_fds=%s" % fds)
+            ctx.count("peer:call_body=%s" % {"-": "empty" if body_in is None else "one string", "u": "one u32", "2": "string+u32"}[bk])
         keys = ["handled", "filter", "written"] + (["pre", "post"] if oi.get("pre") != "unobserved" else [])
         if any(oi.get(k) != om.get(k) for k in keys):
             ctx.disagreements_checked += 1
             why = judge_peer(c, oi)
             data = {"kind": "p", "case": list(c), "line": peer_line(c), "impl": li, "model": lm}
             if why:
-                ctx.violation(why, data)
+                ctx.violation("%s [object path %s, num_fds %s, body kind %s]" % (why, obj if obj is None or len(obj) < 60 else obj[:40] + "...", fds, bk), data)
             else:
                 ctx.tie_broken("correspondence: handle_peer_message differs from the model on a point the property does not constrain", str(data))
 
